@@ -72,6 +72,32 @@ def determinism(check):
         bad += len(diff)
         if diff:
             print("  first divergent indices:", diff[:10])
+    # the re-entrant user code engine: per-scenario digests must not depend on the worker split
+    logs = []
+    for part, nw in (("a", 16), ("b", 5), ("c", 16)):
+        per = (n * 4 + nw - 1) // nw
+        procs = []
+        for w in range(nw):
+            lo, hi = w * per, min(n * 4, (w + 1) * per)
+            if lo >= hi:
+                continue
+            lp = os.path.join(out, f"re-{part}-{w}.log")
+            p = subprocess.Popen([binp, "reentrant", "--seed", str(seed), "--from", str(lo), "--to", str(hi), "--trace-log", lp], stdout=subprocess.DEVNULL, stderr=subprocess.DEVNULL)
+            procs.append((p, lp))
+        merged = {}
+        for p, lp in procs:
+            rc = p.wait()
+            if rc != 0:
+                print(f"determinism: worker exit {rc} for the reentrant engine")
+                return 2
+            for line in open(lp):
+                i, h = line.split("\t")
+                merged[int(i)] = h.strip()
+        logs.append(merged)
+    a, b, c = logs
+    diff = [i for i in a if a[i] != b.get(i) or a[i] != c.get(i)]
+    print(f"determinism reentrant: {len(a)} scenarios x 3 executions (16, 5 and 16 worker processes): {len(diff)} divergent")
+    bad += len(diff)
     shutil.rmtree(out, ignore_errors=True)
     return 0 if bad == 0 else 2
 
